@@ -90,7 +90,7 @@ def main():
     try:
         hmod = importlib.import_module(job['module'])
         ob = next(o for o in hmod.OBLIGATIONS if o.name == job['obligation'])
-        params = dict(ob.partitions(job['tier']))[job['partition']]
+        params = ob.params_for(job['tier'], job['partition'])
         from crosshair.core_and_libs import analyze_function, run_checkables
         from crosshair.options import AnalysisOptionSet, AnalysisKind
         from crosshair.statespace import MessageType
